@@ -125,14 +125,14 @@ def twin_style_restored_after_drawing(fail: bool, copy: bool) -> bool:
 _PATH_OBJ = _magpy.magnet.Cuboid(polarization=(0, 0, 1), dimension=(1, 1, 1), position=[(0, 0, 0), (1, 0, 0), (2, 0, 0)])
 
 
-FPS = (1, 3, 20, 50, 120)
-FRAMES = (1, 5, 200, 500)
-SECS = (1, 2, 5, 60)
+FPS = (1, 3, 50)
+FRAMES = (5, 200)
+SECS = (2, 60)
 
 
 def h_animation_settings_do_not_leak(i_fps: int, i_maxfps: int, i_frames: int, i_secs: int, slider: bool, by_number: bool) -> bool:
     """
-    pre: 0 <= i_fps <= 4 and 0 <= i_maxfps <= 4 and 0 <= i_frames <= 3 and 0 <= i_secs <= 3
+    pre: 0 <= i_fps <= 2 and 0 <= i_maxfps <= 2 and 0 <= i_frames <= 1 and 0 <= i_secs <= 1
     post: _
     """
     # animation settings given in a show() call apply to that call only: the global defaults are the same before and after.
@@ -156,7 +156,7 @@ def h_animation_settings_do_not_leak(i_fps: int, i_maxfps: int, i_frames: int, i
 
 def twin_animation_settings_do_not_leak(i_fps: int, i_secs: int) -> bool:
     """
-    pre: 0 <= i_fps <= 4 and 0 <= i_secs <= 3
+    pre: 0 <= i_fps <= 2 and 0 <= i_secs <= 1
     post: _
     """
     rest, animation, akw = process_animation_kwargs([_PATH_OBJ], animation=True, animation_fps=_pick(FPS, i_fps), animation_time=_pick(SECS, i_secs))
